@@ -65,7 +65,7 @@ def make_spec(seed):
     nodes = []
     for i in range(n):
         if i == 0 or r.random() < 0.6:
-            nodes.append({'ps': True, 'cap': r.choice(['inf', 1, 2, 3, 5]), 'R': r.choice([1, 1, 2, 3])})
+            nodes.append({'ps': True, 'cap': r.choice(['inf', 1, 2, 3, 5]), 'R': r.choice([1, 1, 2, 3, 1.5, 2.5])})
         else:
             nodes.append({'ps': False, 'c': r.choice([1, 2, 'inf'])})
     arr = [td(1.0) if (i == 0 or r.random() < 0.5) else None for i in range(n)]
@@ -230,7 +230,7 @@ def main(tier, vseed, replay=None):
             S.viol.append((code, {'job': dict(r['job'], spec=r.get('spec')), 'spec': r.get('spec'), 'witness': w}))
         if replay: print(r['viol'])
     return S.finish(
-        rule="generated networks of 1-3 nodes with PS nodes (capacity inf/1/2/3/5, threshold 1-3) and ordinary infinite-capacity nodes; per PS node the "
+        rule="generated networks of 1-3 nodes with PS nodes (capacity inf/1/2/3/5, threshold 1, 2, 3 or fractional 1.5, 2.5) and ordinary infinite-capacity nodes; per PS node the "
              "observed arrivals + logged requirements drive an independent fluid model; non-trivial = at least one customer compared; distinct = (nodes, "
              "capacities, thresholds, lattice)",
         level='exploration', deciding='customers_compared_with_fluid_model', replay=bool(replay), failures=failures,
